@@ -50,6 +50,16 @@ VARIANTS = [
       *replace_stmt("self._model.update()",
                     "self._model.update('_model_log_lik', '_model_log_prior', '_model_log_prob')"),
       note="derived quantities outside the log-prob ancestors stay stale", expect_rule="C09.R4"),
+    V("c09_reject_mixes_states", "M", "liesel/goose/mh.py", "mh_step",
+      lambda nd: is_assign_to(nd, "model_state") and "lax.cond" in ast.unparse(nd),
+      lambda nd: stmt("model_state = jax.tree_util.tree_map(lambda p, q: jnp.where(do_accept, p, q) "
+                      "if jnp.issubdtype(p.dtype, jnp.floating) else p, proposed_model_state, model_state)"),
+      note="a rejection keeps the proposal's integer leaves", expect_rule="C09.R5"),
+    V("c09_factory_late_binding", "M", D, "dist_reg_mcmc",
+      *replace_stmt("tau2_kernel = tau2_gibbs_kernel(group)",
+                    "tau2_kernel = GibbsKernel([position_key], lambda key, ms: "
+                    "tau2_gibbs_kernel(group)._transition_fn(key, ms))"),
+      note="every kernel of the loop writes the last group's key", expect_rule="C09.R2"),
     # ---- twins
     V("c09_t_tmp", "T", Q, "KernelSequence.transition",
       *replace_stmt("model_state = result.model_state",
